@@ -1431,6 +1431,34 @@ func (e *Engine) storeContribution(s *fstate, st *ssa.Store) AV {
 	if !any {
 		return Bottom()
 	}
+	// store first, check afterwards through a method of the object (enc := &Encoder{width: w, ...};
+	// if err := enc.checkGeometry(n); err != nil { return nil, err }): the checker certainly ran and
+	// accepted on every successful return, so its postcondition on the field holds for what survives
+	if tn := namedStruct(fa.X.Type()); tn != nil && tn.Pkg() != nil {
+		st2 := tn.Type().Underlying().(*types.Struct)
+		key := tn.Pkg().Path() + "." + tn.Name() + "." + st2.Field(fa.Field).Name()
+		_, calls := e.subValidatorCalls(fn)
+		for _, call := range calls {
+			if !(sb == call.Block() && instrIndex(st) < instrIndex(call) || sb != call.Block() && sb.Dominates(call.Block())) {
+				continue
+			}
+			onObj := false
+			for _, a := range call.Call.Args {
+				if sameObject(a, fa.X) {
+					onObj = true
+				}
+			}
+			if !onObj {
+				continue
+			}
+			if pv, ok := e.fieldPostcondition(call.Call.StaticCallee(), key, 0); ok {
+				if m := meetAV(r, pv); !m.IsBottom() {
+					m.Taint, m.Raw, m.ZeroDef = r.Taint, r.Raw, r.ZeroDef && m.Contains(0)
+					r = m
+				}
+			}
+		}
+	}
 	return r
 }
 
@@ -2172,7 +2200,14 @@ func (e *Engine) FieldPostcondition(fn *ssa.Function, key string) (AV, bool) {
 // a failure, and the entries of a local table of check functions that fn walks completely
 // (for _, check := range checks { if err := check(p); err != nil { return err } }).
 func (e *Engine) subValidators(fn *ssa.Function) []*ssa.Function {
+	out, _ := e.subValidatorCalls(fn)
+	return out
+}
+
+// subValidatorCalls is subValidators together with the static call instructions among them.
+func (e *Engine) subValidatorCalls(fn *ssa.Function) ([]*ssa.Function, []*ssa.Call) {
 	var out []*ssa.Function
+	var calls []*ssa.Call
 	okReturns := func() []*ssa.BasicBlock {
 		var bs []*ssa.BasicBlock
 		for _, b := range fn.Blocks {
@@ -2309,6 +2344,7 @@ func (e *Engine) subValidators(fn *ssa.Function) []*ssa.Function {
 				}
 				if dom && len(okReturns) > 0 {
 					out = append(out, sc)
+					calls = append(calls, call)
 				}
 				continue
 			}
@@ -2366,7 +2402,19 @@ func (e *Engine) subValidators(fn *ssa.Function) []*ssa.Function {
 			if !whole || !ok || cond.Op != token.LSS || cond.X != ssa.Value(inc) {
 				continue
 			}
-			if k, ok := cond.Y.(*ssa.Const); !ok || k.Value == nil || k.Int64() != at.Len() {
+			// the bound is the table's length: the constant for an array, len(table[:]) for a slice literal
+			boundOK := false
+			if k, ok := cond.Y.(*ssa.Const); ok && k.Value != nil && k.Int64() == at.Len() {
+				boundOK = true
+			}
+			if lc, ok := cond.Y.(*ssa.Call); ok {
+				if bi, ok := lc.Call.Value.(*ssa.Builtin); ok && bi.Name() == "len" && len(lc.Call.Args) == 1 {
+					if sl, ok := lc.Call.Args[0].(*ssa.Slice); ok && sl.X == ssa.Value(al) && sl.Low == nil && sl.High == nil {
+						boundOK = true
+					}
+				}
+			}
+			if !boundOK {
 				continue
 			}
 			// the loop's normal exit must lead to the ok returns, and the table entries are constants
@@ -2399,7 +2447,7 @@ func (e *Engine) subValidators(fn *ssa.Function) []*ssa.Function {
 			}
 		}
 	}
-	return out
+	return out, calls
 }
 
 func (e *Engine) fieldPostcondition(fn *ssa.Function, key string, depth int) (AV, bool) {
@@ -2466,7 +2514,20 @@ func (e *Engine) ownFieldPostcondition(fn *ssa.Function, key string) (AV, bool) 
 		v := e.rawSource(t)
 		for _, ld := range loads {
 			if ld.Block() == b || ld.Block().Dominates(b) {
-				v = meetAV(v, e.at(s, ld, b, 0))
+				// what the guards say about the loaded value, whatever the field currently holds: the
+				// load is evaluated as an unknown adversarial value (its summary may still be empty, or
+				// be the very thing this postcondition is about to narrow)
+				saved, had := s.vals[ld]
+				s.vals[ld] = e.rawSource(t)
+				s.atMemo = map[atKey]AV{}
+				g := e.at(s, ld, b, 0)
+				if had {
+					s.vals[ld] = saved
+				} else {
+					delete(s.vals, ld)
+				}
+				s.atMemo = map[atKey]AV{}
+				v = meetAV(v, g)
 			}
 		}
 		r = Join(r, v)
